@@ -40,6 +40,9 @@ class Rec:
         a = actions[(self.n * 7) % len(actions)]
         p = [0.5, 0.25, 1.0][self.n % 3]
         self.log.append(dict(e="predict", ctx=self.ctx_id(context), acts=[int(x) for x in (actions or [])], ra=int(a), rp=S(p) if self.fmt != "a" else NOVAL, rk=self.n if self.fmt == "apk" else NOVAL))
+        if self.fmt == "pmf":        # a PMF that puts all mass on the chosen action, written with the ints 1 and 0
+            self.log[-1].update(rp=1000, rk=NOVAL)
+            return [1 if x is a or x == a else 0 for x in actions]
         if self.fmt == "a": return a
         if self.fmt == "ap": return a, p
         return a, p, {"k": self.n}
@@ -53,17 +56,19 @@ class Rec:
         self.log.append(dict(e="learn", ctx=self.ctx_id(context), a=int(action), r=S(reward), p=S(probability), k=kw.get("k", NOVAL)))
 
 
-def make_env(rng, kind, n, ctxkind, fn_rewards, extra):
+def make_env(rng, kind, n, ctxkind, fn_rewards, extra, ksize=None):
     """-> (list of interaction dicts for coba, abstract env for the spec, ctx_id function)"""
     from coba.primitives import L1Reward
-    its = []; abst = []
+    its = []; abst = []; ksize_off = rng.randrange(5)
     for i in range(1, n + 1):
         if ctxkind == "dense": ctx = (i, 1.5)
         elif ctxkind == "sparse": ctx = {"f": i}
         elif ctxkind == "scalar": ctx = i
         else: ctx = None
-        k = rng.choice([2, 3, 3, 4])
+        k = ksize or rng.choice([2, 3, 3, 4])
         acts = [10 * ((i + j) % 5) + j for j in range(k)]        # action sets change between interactions
+        if ksize == 2:      # directed: two actions, exactly one of them the int 0 or the int 1, in either position
+            acts = [[0, 2], [1, 2], [3, 1], [2, 0], [5, 7]][(i + ksize_off) % 5]
         rw = [rng.choice([0, 0.4, 1.0]) for _ in acts]
         la = rng.choice(acts); lr = rng.choice([0, 0.4, 1.0]); lp = rng.choice([0.5, 0.25])
         it = {"context": ctx}
@@ -107,23 +112,27 @@ def run(ctx):
     traces = []; meta = []
     combos = list(itertools.product(["on", "off", "ips", None], ["on", "ips", None], range(len(recs)), [False, True], ["sim", "log", "both", "lognoact"]))
     reps = ctx.pick(1, 4)
-    for (learn, ev, ri, hs, kind) in combos:
+    # directed: two-action sets holding exactly one of the ints 0 / 1, answered with integer one-hot PMFs (and the other formats)
+    directed = [("on", "on", 2, False, "sim"), ("on", "on", 2, True, "both"), ("ips", "on", 2, False, "both"), ("off", "on", 2, False, "both")]
+    for (learn, ev, ri, hs, kind) in combos + directed * 6:
         for rep in range(reps):
+            is_directed = (learn, ev, ri, hs, kind) in directed
             rec = recs[ri]
             mode = dict(learn=learn or "none", eval=ev or "none", rec=rec, hs=hs, hasActions=kind != "lognoact", hasRewards=kind in ("sim", "both"), hasLogged=kind != "sim")
             # keep to the property's domain: a prediction is only ever requested when the environment offers actions
             out_pred = (("action" in rec) or ("probability" in rec)) and ev
             if kind == "lognoact" and out_pred and not ((learn in ("on", "ips")) or ev == "on" or (ev == "ips" and not hs)): continue
             n = rng.choice([1, 3, 4]); ctxkind = rng.choice(["dense", "sparse", "scalar", "none"]); fn = rng.random() < .5; extra = rng.random() < .5
-            batch = rng.choice([0, 0, 2, 3]); fmt = rng.choice(["a", "ap", "apk", "apk"])
-            its, abst, ctx_id = make_env(rng, kind, n, ctxkind, fn, extra)
+            batch = rng.choice([0, 0, 2, 3]); fmt = rng.choice(["a", "ap", "apk", "apk", "pmf"]); ksize = None
+            if is_directed: n, batch, fmt, ksize = 10, 0, rng.choice(["pmf", "pmf", "ap"]), 2
+            its, abst, ctx_id = make_env(rng, kind, n, ctxkind, fn, extra, ksize)
             log = []
             case = dict(learn=learn, eval=ev, record=rec, has_score=hs, kind=kind, n=n, context=ctxkind, fn_rewards=fn, extra=extra, batch=batch, fmt=fmt)
             ctx.case(json.dumps(case, sort_keys=True) + str(rep))
             if ctxkind == "none": batch = 0       # calls are attributed to interactions by their context
             if kind == "lognoact": batch = 0      # batches of interactions without an action set: not a meaningful input
             if "time" in rec: batch = 0           # timing columns are per call, not per interaction: out of scope when batched
-            if batch and fmt == "a": fmt = "ap"   # how bare-action answers of a per-row fallback are re-assembled is C15's subject
+            if batch and fmt in ("a", "pmf"): fmt = "ap"   # how bare-action answers of a per-row fallback are re-assembled is C15's subject
             case["batch"] = batch
             try:
                 nrow = 0
